@@ -41,6 +41,15 @@ func hasPrefixKey(keys []string) bool {
 // C01: indexed keys are found with their own value.
 
 func checkC01(c *Case, s *Stats) error {
+	if c.Gen == "concurrent-round" {
+		// a replay: the outcome depends on the schedule, so the round is repeated
+		for rep := 0; rep < 40; rep++ {
+			if err := independentReaders(c.Block, s); err != nil {
+				return err
+			}
+		}
+		return nil
+	}
 	if strings.HasPrefix(c.Gen, "scale:") {
 		return bigLeaves(s) // replay of the scale test
 	}
@@ -219,6 +228,15 @@ func checkC03(c *Case, s *Stats) error {
 // C09: Search on an indexed key returns exact neighbours in every mode.
 
 func checkC09(c *Case, s *Stats) error {
+	if c.Gen == "concurrent-round" {
+		// a replay: the outcome depends on the schedule, so the round is repeated
+		for rep := 0; rep < 40; rep++ {
+			if err := independentReaders(c.Block, s); err != nil {
+				return err
+			}
+		}
+		return nil
+	}
 	m := newModel(c)
 	fresh, st, err := c.load()
 	if err != nil {
@@ -258,6 +276,15 @@ func nilIfEnd(m *Model, i int) interface{} {
 func vkey(v interface{}) string { return fmt.Sprintf("%T:%v", v, v) }
 
 func checkC10(c *Case, s *Stats) error {
+	if c.Gen == "concurrent-round" {
+		// a replay: the outcome depends on the schedule, so the round is repeated
+		for rep := 0; rep < 40; rep++ {
+			if err := independentReaders(c.Block, s); err != nil {
+				return err
+			}
+		}
+		return nil
+	}
 	m := newModel(c)
 	fresh, st, err := c.load()
 	if err != nil {
@@ -437,6 +464,15 @@ func checkC13(c *Case, s *Stats) error {
 // C14: typed getters agree with Get.
 
 func checkC14(c *Case, s *Stats) error {
+	if c.Gen == "concurrent-round" {
+		// a replay: the outcome depends on the schedule, so the round is repeated
+		for rep := 0; rep < 40; rep++ {
+			if err := independentReaders(c.Block, s); err != nil {
+				return err
+			}
+		}
+		return nil
+	}
 	if strings.HasPrefix(c.Gen, "scale:") {
 		return hugeI64(s) // replay of the scale test
 	}
